@@ -120,7 +120,7 @@ func Lean(body []Stmt) string {
 func Unknowns(body []Stmt) []string {
 	var r []string
 	for _, s := range body {
-		if s.Kind == "unknown" {
+		if s.Kind == "unknown" || s.Kind == "badGuard" || (s.Kind == "reject" && s.Why != "") {
 			r = append(r, s.Why)
 		}
 		r = append(r, Unknowns(s.Then)...)
@@ -134,6 +134,7 @@ type fileCtx struct {
 	fset     *token.FileSet
 	apiNames map[string]bool            // local names of the sentinel api package in this file
 	embedded map[string]map[string]bool // struct type name -> embedded field names (whole package)
+	misguard map[*ast.CallExpr]string   // option calls made under a nil-test of a different option field
 }
 
 type fnCtx struct {
@@ -229,6 +230,9 @@ func (c *fnCtx) sawNext(call *ast.CallExpr) {
 // in the adapter's options, `pkg.Func` for a package-level function, `return` when the block error is returned.
 // The Lean framework table decides which of these stop the handler chain.
 func (c *fnCtx) rejectVia(n ast.Node) string {
+	if len(c.misguards(n)) > 0 {
+		return "misguarded"
+	}
 	var call *ast.CallExpr
 	ast.Inspect(n, func(x ast.Node) bool {
 		if call != nil {
@@ -267,6 +271,134 @@ func (c *fnCtx) rejectVia(n ast.Node) string {
 	return "call"
 }
 
+// ---- option guards -------------------------------------------------------------------------------------------
+// `if o.f != nil { … o.g(…) … }`: calling field g of the same value under a nil-test of a *different* field f (and of
+// no enclosing test of g) is a defect whatever the rest does: with only g configured it is skipped, with only f
+// configured a nil function is called.  (micro NewStreamWrapper before /repo d41329a.)
+
+type guard struct {
+	root   *ast.Object
+	fields map[string]bool
+}
+
+// guardOf: the fields of one value that the condition proves non-nil (`o.f != nil`, `o.f != nil && o.h != nil`).
+func guardOf(cond ast.Expr) *guard {
+	switch e := cond.(type) {
+	case *ast.ParenExpr:
+		return guardOf(e.X)
+	case *ast.BinaryExpr:
+		if e.Op == token.LAND {
+			a, b := guardOf(e.X), guardOf(e.Y)
+			if a == nil {
+				return b
+			}
+			if b != nil && b.root == a.root {
+				for f := range b.fields {
+					a.fields[f] = true
+				}
+			}
+			return a
+		}
+		if e.Op == token.NEQ {
+			x := e.X
+			if isNil(e.X) {
+				x = e.Y
+			} else if !isNil(e.Y) {
+				return nil
+			}
+			if sel, ok := x.(*ast.SelectorExpr); ok {
+				if id, ok := sel.X.(*ast.Ident); ok && id.Obj != nil && id.Obj.Kind == ast.Var {
+					return &guard{id.Obj, map[string]bool{sel.Sel.Name: true}}
+				}
+			}
+		}
+	}
+	return nil
+}
+
+func (c *fnCtx) walkGuards(n ast.Node, gs []*guard) {
+	if n == nil {
+		return
+	}
+	switch t := n.(type) {
+	case *ast.IfStmt:
+		c.walkGuards(t.Init, gs)
+		c.walkGuards(t.Cond, gs)
+		inner := gs
+		if g := guardOf(t.Cond); g != nil {
+			inner = append(append([]*guard{}, gs...), g)
+		}
+		c.walkGuards(t.Body, inner)
+		c.walkGuards(t.Else, gs)
+		return
+	case *ast.CallExpr:
+		c.checkGuardedCall(t, gs)
+	}
+	ast.Inspect(n, func(x ast.Node) bool {
+		if x == nil || x == n {
+			return true
+		}
+		switch x.(type) {
+		case *ast.IfStmt, *ast.CallExpr:
+			c.walkGuards(x, gs)
+			return false
+		}
+		return true
+	})
+}
+
+func (c *fnCtx) checkGuardedCall(call *ast.CallExpr, gs []*guard) {
+	sel, ok := call.Fun.(*ast.SelectorExpr)
+	if !ok {
+		return
+	}
+	id, ok := sel.X.(*ast.Ident)
+	if !ok || id.Obj == nil {
+		return
+	}
+	var innermost *guard
+	for _, g := range gs {
+		if g.root == id.Obj {
+			if g.fields[sel.Sel.Name] {
+				return // tested by this or an enclosing guard
+			}
+			innermost = g
+		}
+	}
+	if innermost == nil {
+		return // no nil-test of this value around the call (options with defaults: kitex, kratos, hertz)
+	}
+	var tested []string
+	for f := range innermost.fields {
+		tested = append(tested, id.Name+"."+f)
+	}
+	sort.Strings(tested)
+	c.misguard[call] = fmt.Sprintf("%s: %s.%s is called under a nil-test of %s", c.fset.Position(call.Pos()), id.Name, sel.Sel.Name, strings.Join(tested, ", "))
+}
+
+// misguards lists the mis-guarded option calls inside a node.
+func (c *fnCtx) misguards(n ast.Node) []string {
+	var r []string
+	if n == nil {
+		return r
+	}
+	ast.Inspect(n, func(x ast.Node) bool {
+		if ce, ok := x.(*ast.CallExpr); ok {
+			if why, ok := c.misguard[ce]; ok {
+				r = append(r, why)
+			}
+		}
+		return true
+	})
+	return r
+}
+
+func (c *fnCtx) rejStmt(n ast.Node) Stmt {
+	r := rej(c.rejectVia(n))
+	r.Why = strings.Join(c.misguards(n), "; ")
+	return r
+}
+
 func rej(via string) Stmt { return Stmt{Kind: "reject", Alts: [][]string{{via}}} }
 
 // isLocalFuncVarCall: a call through a local (non-parameter) variable: cannot be classified.
@@ -278,7 +410,7 @@ func (c *fnCtx) isLocalFuncVarCall(call *ast.CallExpr) bool {
 }
 
 type facts struct {
-	entryCall, next, ret, entryMention, entryDeref, entryExit, blkMention, funcLitInteresting, localCall, anyCall bool
+	entryCall, next, ret, entryMention, entryDeref, entryExit, blkMention, funcLitInteresting, localCall, anyCall, misguard bool
 }
 
 // scan collects what a node contains (function literals are scanned too; if they mention anything of interest
@@ -304,6 +436,9 @@ func (c *fnCtx) scan(n ast.Node) facts {
 				f.ret = true
 			case *ast.CallExpr:
 				f.anyCall = true
+				if _, ok := c.misguard[t]; ok {
+					f.misguard = true
+				}
 				if _, ok := c.isAPICall(t, "Entry"); ok {
 					f.entryCall = true
 				}
@@ -607,7 +742,9 @@ func (c *fnCtx) conv(list []ast.Stmt, inBlk bool, depth int) []path {
 			pre = append(pre, unk(c, s, "call through a local variable"))
 		}
 		if inBlk && (f.anyCall || f.blkMention) {
-			pre = append(pre, rej(c.rejectVia(s)))
+			pre = append(pre, c.rejStmt(s))
+		} else if f.misguard {
+			pre = append(pre, Stmt{Kind: "badGuard", Why: strings.Join(c.misguards(s), "; ")})
 		}
 		return stop(append(pre, Stmt{Kind: "ret"})...)
 
@@ -657,6 +794,10 @@ func (c *fnCtx) conv(list []ast.Stmt, inBlk bool, depth int) []path {
 			fe = c.scan(st.Else)
 		}
 		if !fb.interesting() && !fe.interesting() && !fb.localCall && !fe.localCall && !(inBlk && (fb.anyCall || fe.anyCall)) {
+			if why := c.misguards(st); len(why) > 0 {
+				// e.g. the resource extractor called under the nil-test of another option
+				return cont(Stmt{Kind: "badGuard", Why: strings.Join(why, "; ")})
+			}
 			return cont() // nothing of interest under this test (resource-name extraction and the like)
 		}
 		// opaque test: both continuations; the entry binding made in one arm must not leak into the other
@@ -673,7 +814,7 @@ func (c *fnCtx) conv(list []ast.Stmt, inBlk bool, depth int) []path {
 			return cont(unk(c, s, fmt.Sprintf("%T involving the entry / handler / a return", s)))
 		}
 		if inBlk && f.anyCall {
-			return cont(rej(c.rejectVia(s)))
+			return cont(c.rejStmt(s))
 		}
 		return cont()
 	}
@@ -705,7 +846,9 @@ func (c *fnCtx) plain(s ast.Stmt, f facts, rest []ast.Stmt, inBlk bool, depth in
 		pre = append(pre, unk(c, s, "entry aliased"))
 	}
 	if inBlk && f.anyCall {
-		pre = append(pre, rej(c.rejectVia(s)))
+		pre = append(pre, c.rejStmt(s))
+	} else if f.misguard {
+		pre = append(pre, Stmt{Kind: "badGuard", Why: strings.Join(c.misguards(s), "; ")})
 	}
 	return prepend(pre, c.conv(rest, inBlk, depth+1))
 }
@@ -873,6 +1016,7 @@ func (fc *fileCtx) walkFunc(rel, name string, ft *ast.FuncType, body *ast.BlockS
 	addParams(c.params, ft)
 	c.hasRes = ft != nil && ft.Results != nil && len(ft.Results.List) > 0
 	if c.directEntry(body) {
+		c.walkGuards(body, nil)
 		ps := c.conv(body.List, false, 0)
 		ps = dedupeCollapsed(ps)
 		for _, p := range ps {
@@ -986,7 +1130,7 @@ func Extract(repo string) ([]Prog, error) {
 		}
 		for _, p := range dirs[d] {
 			f := files[p]
-			fc := &fileCtx{fset: fset, apiNames: map[string]bool{}, embedded: embedded}
+			fc := &fileCtx{fset: fset, apiNames: map[string]bool{}, embedded: embedded, misguard: map[*ast.CallExpr]string{}}
 			for _, im := range f.Imports {
 				if strings.Trim(im.Path.Value, `"`) == apiPath {
 					nm := "api"
